@@ -108,7 +108,12 @@ def scenarios(tier, seed):
                     ispec["step_size"] = rng.choice([0.5, 0.8, 1.2, 1.6])
             else:
                 ts["max_delta_h"] = 1e9
+        boundary = None
+        if rng.random() < 0.3:
+            # integrator errors part-way through trajectories (symmetric under reversal, see BoundaryIntegrator)
+            boundary = {"k": rng.choice([0, 1, 2, 3]), "error": rng.choice(["ConvergenceError", "NonReversibleStepError"])}
         out.append({
+            "boundary": boundary,
             "system": spec, "integrator": ispec, "transition": ts, "window": rng.choice([2, 3, 4]),
             "start_seed": rng.getrandbits(40), "path_cap": PATH_CAP[tier],
         })
@@ -156,7 +161,7 @@ def run_scenario(scn):
     spec, ts = scn["system"], scn["transition"]
     system, _model = zoo.build_system(spec)
     integ_real = zoo.build_integrator(system, scn["integrator"])
-    integ = dt.CountingIntegrator(integ_real)
+    integ = dt.CountingIntegrator(integ_real)  # re-pointed at the boundary integrator once the orbit exists
     crit = MarginCriterion(ts.get("criterion", "euclidean"))
     trans = build_transition(system, integ, ts, crit)
     metrop = ts["type"] in ("static", "random")
@@ -181,6 +186,10 @@ def run_scenario(scn):
         return discard("orbit-non-finite")
     if orbit.min_separation() < 1e-5:
         return discard("orbit-degenerate")
+    if scn.get("boundary"):
+        errcls = getattr(mici.errors, scn["boundary"]["error"])
+        integ.__dict__["_inner"] = dt.BoundaryIntegrator(integ_real, orbit, scn["boundary"]["k"], errcls, tol_idx)
+        stats["boundary_scenarios"] = 1
     href = min(orbit.h.values())
     w = {k: math.exp(-(orbit.h[k] - href)) for k in orbit.h}
     T = {}
@@ -208,9 +217,16 @@ def run_scenario(scn):
                     stats["decision_kinds"][kd] = stats["decision_kinds"].get(kd, 0) + 1
                 if margins and min(margins) < 1e-9:
                     return discard("criterion-margin")
-                if errors:
-                    # trajectories cut by integrator errors: stationarity is not claimed (probe), but the
-                    # reported step count / acceptance statistic of this path are still checked below
+                if errors and scn.get("boundary") and all(e_ == scn["boundary"]["error"] for e_ in errors):
+                    stats["boundary_error_paths"] = stats.get("boundary_error_paths", 0) + 1
+                    flag = "convergence_error" if scn["boundary"]["error"] == "ConvergenceError" else "non_reversible_step"
+                    if not st_stats.get(flag):
+                        res["violations"].append(violation("error-flag", f"{PROP} error-flag:{ts['type']}",
+                                                          f"trajectory hit {errors} but statistic {flag} is {st_stats.get(flag)} (start {i}, dir {d})"))
+                        return res
+                elif errors:
+                    # genuine integrator errors: stationarity is not claimed (probe), but the reported
+                    # step count / acceptance statistic of this path are still checked below
                     stats["integrator_error_paths"] += 1
                     had_error = True
                 if st_stats.get("diverging"):
@@ -226,7 +242,7 @@ def run_scenario(scn):
                 T[key] = T.get(key, 0.0) + p
                 reach_ends.add(j)
                 # per-path bookkeeping
-                if st_stats["n_step"] != len(outs) or n_calls != len(outs):
+                if st_stats["n_step"] != len(outs) or (not errors and n_calls != len(outs)):
                     res["violations"].append(violation("n-step", f"{PROP} n-step:{ts['type']}",
                                                       f"transition reports n_step={st_stats['n_step']} but made {len(outs)} successful integrator steps (start {i}, dir {d}, decisions {[c for c, _ in script.trace]})",
                                                       decisions=[c for c, _ in script.trace], start=[i, d]))
